@@ -41,7 +41,7 @@ def run_scripts(exe, scripts, scratch, tag="core", nproc=None, per_file=None):
         sp, tp = j
         env = dict(os.environ)
         env.pop("IV_EXCLUDE_POLL_METHOD", None)
-        r = subprocess.run([exe, "-i", sp, "-o", tp, "-T", "3"], stdout=subprocess.PIPE,
+        r = subprocess.run([exe, "-i", sp, "-o", tp, "-T", "6"], stdout=subprocess.PIPE,
                            stderr=subprocess.STDOUT, text=True, env=env, timeout=3600)
         if r.returncode != 0:
             raise vlib.MachineryError("harness failed on %s: rc=%d\n%s" % (sp, r.returncode, r.stdout[-2000:]))
